@@ -3,7 +3,7 @@
 // three-valued reference membership.
 import { Reporter, TIER, SEED, sliceBySeed, valueKind, sha } from "./common.mjs";
 import { sweepPrograms, runtimeClasses } from "./sweep.mjs";
-import { f1Depth1, f1Depth2, f3, f4, packPrograms, packInline, skeleton, render, renderProgram } from "./spec.mjs";
+import { f1Depth1, f1Depth2, f1Overlap, f3, f4, packPrograms, packInline, skeleton, render, renderProgram } from "./spec.mjs";
 import { f2 } from "./spec2.mjs";
 import { member, IN, OUT, DC, vname } from "./ref.mjs";
 import { normaliseProgram } from "./normalise.mjs";
@@ -13,6 +13,7 @@ import { CompilePool } from "./compile.mjs";
 export function familyPrograms() {
   const progs = [];
   progs.push(...packPrograms(f1Depth1(), 40, "F1d1"));
+  progs.push(...packInline(f1Overlap(), 40, "F1x"));
   progs.push(...f2());
   progs.push(...f3());
   progs.push(...packPrograms(f4(), 40, "F4"));
